@@ -19,6 +19,16 @@
 
 namespace vh::sm
 {
+// every distinct token once per result line
+inline void note_mismatch(std::string &_mismatch, char const *const _class, char const *const _member)
+{
+  std::string const token{std::string{" SPECIAL-MEMBER-MISMATCH:"} + _class + ":" + _member};
+  if (_mismatch.find(token) == std::string::npos)
+  {
+    _mismatch += token;
+  }
+}
+
 // ------------------------------------------------------------------ copyable classes
 constexpr unsigned copy_routes = 9U;
 
@@ -159,7 +169,7 @@ T checked(
   T got(vh::sm::route(_r, _want, _make_other));
   if (_show(got) != _show(_want))
   {
-    _mismatch += std::string{" SPECIAL-MEMBER-MISMATCH:"} + _class + ":" + route_name(_r);
+    note_mismatch(_mismatch, _class, route_name(_r));
   }
   return got;
 }
@@ -182,7 +192,7 @@ T checked_eq(
   }
   if (bad)
   {
-    _mismatch += std::string{" SPECIAL-MEMBER-MISMATCH:"} + _class + ":" + route_name(_r);
+    note_mismatch(_mismatch, _class, route_name(_r));
   }
   return got;
 }
